@@ -92,11 +92,16 @@ def error(draw, val, special_rate, zero_rate):
     return clamp(abs(val) * 10.0 ** draw(st.floats(-6.0, 0.0)))
 
 
-def alphas():
-    """Significance levels in (0, 1)."""
-    return st.one_of(st.floats(-8.0, math.log10(0.5)).map(lambda x: 10.0 ** x),
-                     st.floats(0.001, 0.999),
-                     st.sampled_from([0.01, 0.05, 0.1, 0.001]))
+def alphas(tiny=False):
+    """Significance levels in (0, 1); with ``tiny`` also levels down to 1e-100 (where
+    1 - alpha/2 is no longer representable: formulas written for the upper tail break)."""
+    base = [st.floats(-8.0, math.log10(0.5)).map(lambda x: 10.0 ** x),
+            st.floats(0.001, 0.999),
+            st.sampled_from([0.01, 0.05, 0.1, 0.001])]
+    if tiny:
+        base += [st.floats(-100.0, -8.0).map(lambda x: 10.0 ** x),
+                 st.floats(-17.0, -9.0).map(lambda x: 10.0 ** x)]
+    return st.one_of(*base)
 
 
 def make_dataset(shape, kinds, values, errors, name='ds'):
